@@ -309,6 +309,8 @@ theorem repay_drift {E : Env} {g : Int} {now : Int} {s s' : St} {owner : Acct} {
   · cases h
   split at h
   · cases h
+  split at h
+  · cases h
   rename_i id c0 hf
   split at h
   · cases h
@@ -519,6 +521,8 @@ theorem liquidate_drift {E : Env} {g : Int} {now : Int} {s s' : St} {keeper owne
   have ho1 := sync_cdp_id S
   have hty1 : c1.ty = ty := by rw [S.ty, hty0]
   unfold liquidate at h
+  split at h
+  · cases h
   rw [hf] at h
   dsimp only at h
   rw [hsync] at h
